@@ -31,6 +31,7 @@ type c20Case struct {
 		Conns int    `json:"conns"`
 		Dir   string `json:"dir"`
 		Kind  string `json:"kind"`
+		Churn bool   `json:"churn"`
 	} `json:"c"`
 	Exp struct {
 		Limited bool `json:"limited"`
@@ -183,6 +184,13 @@ func c20Case1(seed int64, idx int, c *c20Case) (map[string]any, []map[string]any
 		per = 4 * mib
 		total = per * int64(c.C.Conns)
 	}
+	iters := 1
+	if c.C.Churn {
+		// many short-lived connections: every worker moves its share 48 KiB at a time, each over a fresh connection
+		iters = int(per / (48 << 10))
+		per = 48 << 10
+		total = per * int64(iters) * int64(c.C.Conns)
+	}
 	smp := &sampler{}
 	// target: an origin / tunnel end that sends or receives `per` bytes per connection
 	ln, err := net.Listen("tcp", "127.0.0.1:0")
@@ -255,55 +263,26 @@ func c20Case1(seed int64, idx int, c *c20Case) (map[string]any, []map[string]any
 	var cmu sync.Mutex
 	var clients []*rawClient
 	smp.t0 = time.Now()
-	for k := 0; k < c.C.Conns; k++ {
-		k := k
-		wg.Add(1)
-		go func() {
-			defer wg.Done()
-			id := fmt.Sprintf("/t%d-%d", idx, k)
-			cl, err := dialRaw(f.addr)
-			if err != nil {
-				fail("dial: " + err.Error())
+	one := func(k, it int) {
+		id := fmt.Sprintf("/t%d-%d-%d", idx, k, it)
+		cl, err := dialRaw(f.addr)
+		if err != nil {
+			fail("dial: " + err.Error())
+			return
+		}
+		defer cl.close()
+		cmu.Lock()
+		clients = append(clients, cl)
+		cmu.Unlock()
+		if c.C.Kind == "tunnel" {
+			cl.send([]byte("CONNECT origin.test:8080 HTTP/1.1\r\nHost: origin.test:8080\r\n\r\n"))
+			r, err := readWireResponseHeadOnlyT(cl, 8*time.Second)
+			if err != nil || r.Status != 200 {
+				fail(fmt.Sprintf("CONNECT failed: %v", err))
 				return
 			}
-			defer cl.close()
-			cmu.Lock()
-			clients = append(clients, cl)
-			cmu.Unlock()
-			if c.C.Kind == "tunnel" {
-				cl.send([]byte("CONNECT origin.test:8080 HTTP/1.1\r\nHost: origin.test:8080\r\n\r\n"))
-				r, err := readWireResponseHeadOnlyT(cl, 8*time.Second)
-				if err != nil || r.Status != 200 {
-					fail(fmt.Sprintf("CONNECT failed: %v", err))
-					return
-				}
-				cl.send([]byte(id + "\n"))
-				if c.C.Dir == "upload" {
-					d, err := source(cl.conn, seed, id, per)
-					if err != nil {
-						fail("upload: " + err.Error())
-						return
-					}
-					dmu.Lock()
-					digSent[id] = d
-					dmu.Unlock()
-					cl.conn.SetReadDeadline(time.Now().Add(60 * time.Second))
-					cl.br.ReadString('\n')
-				} else {
-					cl.conn.SetReadDeadline(time.Now().Add(60 * time.Second))
-					d, err := sink(cl.br, per, smp)
-					if err != nil {
-						fail("download: " + err.Error())
-						return
-					}
-					dmu.Lock()
-					digGot[id] = d
-					dmu.Unlock()
-				}
-				return
-			}
+			cl.send([]byte(id + "\n"))
 			if c.C.Dir == "upload" {
-				cl.send([]byte(fmt.Sprintf("POST http://origin.test%s HTTP/1.1\r\nHost: origin.test\r\nContent-Length: %d\r\n\r\n", id, per)))
 				d, err := source(cl.conn, seed, id, per)
 				if err != nil {
 					fail("upload: " + err.Error())
@@ -312,21 +291,10 @@ func c20Case1(seed int64, idx int, c *c20Case) (map[string]any, []map[string]any
 				dmu.Lock()
 				digSent[id] = d
 				dmu.Unlock()
-				if r, err := cl.recv("POST", 60*time.Second); err != nil || r.Status != 200 {
-					st, eh := 0, ""
-					if r != nil {
-						st, eh = r.Status, r.first("X-Forwarder-Error")
-					}
-					fail(fmt.Sprintf("upload not answered with 200: status %d %q, %v", st, eh, err))
-				}
-			} else {
-				cl.send([]byte("GET http://origin.test" + id + " HTTP/1.1\r\nHost: origin.test\r\n\r\n"))
 				cl.conn.SetReadDeadline(time.Now().Add(60 * time.Second))
-				r, err := readWireResponseHeadOnly(cl.br)
-				if err != nil || r.Status != 200 {
-					fail(fmt.Sprintf("download failed: %v", err))
-					return
-				}
+				cl.br.ReadString('\n')
+			} else {
+				cl.conn.SetReadDeadline(time.Now().Add(60 * time.Second))
 				d, err := sink(cl.br, per, smp)
 				if err != nil {
 					fail("download: " + err.Error())
@@ -335,6 +303,51 @@ func c20Case1(seed int64, idx int, c *c20Case) (map[string]any, []map[string]any
 				dmu.Lock()
 				digGot[id] = d
 				dmu.Unlock()
+			}
+			return
+		}
+		if c.C.Dir == "upload" {
+			cl.send([]byte(fmt.Sprintf("POST http://origin.test%s HTTP/1.1\r\nHost: origin.test\r\nContent-Length: %d\r\n\r\n", id, per)))
+			d, err := source(cl.conn, seed, id, per)
+			if err != nil {
+				fail("upload: " + err.Error())
+				return
+			}
+			dmu.Lock()
+			digSent[id] = d
+			dmu.Unlock()
+			if r, err := cl.recv("POST", 60*time.Second); err != nil || r.Status != 200 {
+				st, eh := 0, ""
+				if r != nil {
+					st, eh = r.Status, r.first("X-Forwarder-Error")
+				}
+				fail(fmt.Sprintf("upload not answered with 200: status %d %q, %v", st, eh, err))
+			}
+		} else {
+			cl.send([]byte("GET http://origin.test" + id + " HTTP/1.1\r\nHost: origin.test\r\n\r\n"))
+			cl.conn.SetReadDeadline(time.Now().Add(60 * time.Second))
+			r, err := readWireResponseHeadOnly(cl.br)
+			if err != nil || r.Status != 200 {
+				fail(fmt.Sprintf("download failed: %v", err))
+				return
+			}
+			d, err := sink(cl.br, per, smp)
+			if err != nil {
+				fail("download: " + err.Error())
+				return
+			}
+			dmu.Lock()
+			digGot[id] = d
+			dmu.Unlock()
+		}
+	}
+	for k := 0; k < c.C.Conns; k++ {
+		k := k
+		wg.Add(1)
+		go func() {
+			defer wg.Done()
+			for it := 0; it < iters; it++ {
+				one(k, it)
 			}
 		}()
 	}
@@ -385,8 +398,8 @@ func c20Case1(seed int64, idx int, c *c20Case) (map[string]any, []map[string]any
 			fail(fmt.Sprintf("transfer %s altered: digest sent %s, received %s", id, d, digGot[id]))
 		}
 	}
-	if len(digSent) != c.C.Conns {
-		fail(fmt.Sprintf("%d of %d transfers completed", len(digSent), c.C.Conns))
+	if len(digSent) != c.C.Conns*iters {
+		fail(fmt.Sprintf("%d of %d transfers completed", len(digSent), c.C.Conns*iters))
 	}
 	dmu.Unlock()
 	const chunkKiB = 64
